@@ -1802,6 +1802,8 @@ mod crypto {
                                 assert!(sizebuf_bytes_read <= 8);
                             }
                         }
+                        // Retrying keeps the size bytes read so far; returning would lose them.
+                        Err(err) if err.kind() == ErrorKind::Interrupted => continue,
                         Err(err) => return Err(err),
                     }
                     if sizebuf_bytes_read == 8 {
